@@ -357,5 +357,7 @@ func ruleC17(w *World, r *Report) {
 			r.Check(strings.Contains(a[2], "ParseValidators("+hdr.String()+".Extra)"), "C17.update/pending.value", "BIND", fn, fi.InstrPos(c), "pending set parsed from the header's extra data", "pending set is "+clip(a[2]))
 		}
 	}
+	// the keeper (shared by all client types) stores what the accepted header defines
+	k.keeperUpdateRule("C17")
 	r.MinInstances("C17.", 38)
 }
